@@ -208,7 +208,15 @@ struct Engine {
 	// anonymous heads answer select() with INVALID_PRONG and utility 0: select / randomize through headless regions are
 	// outside the documented preconditions, so programs with headless composite-style regions do not use those kinds
 	static bool hasHeadlessCompo() { for (int s = 0; s < N; ++s) if (isCompo(s) && D(s).headless) return true; return false; }
-	static bool kindAllowed(int k) { if (k == T_UTILIZE || k == T_RANDOMIZE) { if (!utilityOn() || G().opt.common) return false; } if (hasHeadlessCompo() && (k == T_SELECT || k == T_RANDOMIZE)) return false; return true; }
+	static bool hasHeadless() { for (int s = 0; s < N; ++s) if (D(s).headless) return true; return false; }
+	// select() through a headless composite-style region and a weighted draw among sub-states that include a headless region
+	// (utility 0) are outside the documented preconditions
+	static bool kindAllowed(int k) {
+		if (k == T_UTILIZE || k == T_RANDOMIZE) { if (!utilityOn() || G().opt.common) return false; }
+		if (hasHeadlessCompo() && k == T_SELECT) return false;
+		if (hasHeadless() && k == T_RANDOMIZE) return false;
+		return true;
+	}
 
 	// ---- menus ----------------------------------------------------------------------------------
 	static void buildMenus() {
